@@ -292,8 +292,9 @@ def flow_obligations():
                         bad.append(e[2])
                 if e[2] in ("draw_gmm", "multivariate_student_t"):
                     draws += 1
-                    if not _derives_from(e[3][-1], root):
-                        bad.append(e[2] + " receives " + fx.show(e[3][-1])[:60])
+                    gen = dict(e[4]).get("random_state", e[3][-1] if e[3] else None)      # last positional argument or the keyword
+                    if gen is None or not _derives_from(gen, root):
+                        bad.append(e[2] + " receives " + fx.show(gen)[:60])
         obs.append(Ob(f"{name}: every draw comes from check_random_state(random_state); no global random state", PROVED if draws and not bad and not glob else REFUTED,
                       "fx-dataflow", "P", {"draws": draws, "bad": sorted(set(bad)), "global": glob}, fn=fn))
         # ONE generator per call: the raw random_state argument is turned into a generator exactly once and given to nothing else
